@@ -51,6 +51,36 @@ SEEDS = {
     needs="difference only: a clipping edge that was split earlier (its remainder is flagged exterior and shares the subject's contour id) crossed by a subject edge, the two becoming neighbours only when a separating segment ends"),
  "S17-c01-skip-post-removal-check-same-ring": dict(prop="C01", origin="independent sub-agent (same change as S16, found independently)",
     change="as S16", needs="as S16; ~0.1 % of small random difference inputs"),
+ "S18-c15-horizontal-tie-not-antisymmetric": dict(prop="C15", origin="independent sub-agent",
+    change="Ord for SweepEvent: a sign shortcut `dy1*dy2 <= 0` before the orientation test also catches two exactly horizontal edges",
+    needs="a subject and a clipping edge that are both horizontal and share their left (two left events) or right end point: cmp returns Greater in both directions; Boolean results are unchanged"),
+ "S19-c10-f32-determinant-fast-path": dict(prop="C10", origin="independent sub-agent",
+    change="signed_area: a fast path returns the plain determinant computed in the coordinate type when it passes the double-precision filter bound",
+    needs="f32 only: three points collinear to within one f32 ulp with coordinate differences that are inexact in f32"),
+ "S20-c11-dedupe-revisited-ring-vertices": dict(prop="C11", origin="independent sub-agent (patch rebased onto the second hook commit)",
+    change="fill_queue: every input ring is 'sanitised' by dropping vertices it has already visited (except repeats of its first vertex)",
+    needs="an operand that is a RESULT of a previous operation whose ring passes twice through a vertex (hole or notch touching the boundary, traced inline); freshly written simple rings are unaffected"),
+ "S21-c17-next-absent-key-fast-path": dict(prop="C17", origin="independent sub-agent",
+    change="SplayTree::next: returns None at once when the root has no right subtree after splaying",
+    needs="next(k) for a key that is NOT stored whose successor is the maximum and ends up at the root (depends on the insertion history)"),
+ "S22-c12-static-mutex-processed-bitmap": dict(prop="C12", origin="independent sub-agent",
+    change="connect_edges: the per-call `processed` set becomes a process-wide static Mutex<Vec<bool>> locked per single access",
+    needs="two threads inside connect_edges at the same time (a particular interleaving); every single-threaded history stays correct"),
+ "S23-c09-skip-left-clipping-edges-difference": dict(prop="C09", origin="independent sub-agent",
+    change="subdivide: for difference, clipping edges that end left of the subject's box are skipped",
+    needs="difference with a clipping polygon that reaches left of the subject's box with an asymmetric left end and passes beneath the subject; a far-left subject part switches the skip off"),
+ "S24-c15-compare-segments-horizontal-fast-path": dict(prop="C15", origin="independent sub-agent",
+    change="compare_segments: fast paths for axis-parallel segments; the one for a horizontal reference segment ignores the tie where the new segment starts exactly on it",
+    needs="a horizontal segment and a second, rising, non-vertical segment whose left end lies on it (not at its left end) — a T-junction that exists only before subdivision"),
+ "S25-c03-debug-assert-contour-closed": dict(prop="C03", origin="independent sub-agent",
+    change="connect_edges: the commented-out debug_assert_eq!(first point, last point) of a contour is enabled",
+    needs="debug-assertion builds only: a valid input whose computed intersection points round away from a T-junction vertex so that a contour walk dead-ends"),
+ "S26-c02-skip-recompute-upper-overlap": dict(prop="C02", origin="independent sub-agent",
+    change="subdivide: after an overlap with the upper neighbour the fields of the event are only recomputed if it is in the result",
+    needs="intersection: a clipping edge starting in the interior of a collinear subject edge, both operands on the same side, and a result ring whose lowest-left vertex is directly above the shared piece"),
+ "S27-c06-empty-clipping-early-return": dict(prop="C06", origin="independent sub-agent",
+    change="boolean_operation: early return of the subject when the clipping operand has no polygons, regardless of the operation",
+    needs="intersection with an empty MultiPolygon on the right-hand side"),
 }
 
 def main():
